@@ -441,6 +441,23 @@ class WitnessModel(Model):
                 for x in self._flat(recv):
                     total = x if total is None else super().binop(interp, 'add', total, x, node)
                 return super().binop(interp, 'div', total, len(self._flat(recv)), node)
+            if name in ('argmin', 'argmax'):
+                # index of the first extreme element (numpy's rule for ties), decided at the witness
+                def first_extreme(items):
+                    vals = [self.value(x) for x in items]
+                    if not vals or any(v is None for v in vals):
+                        raise AnalysisError(f'{name} of values without a witness at {interp.where(node)}')
+                    best = 0
+                    for i_, v_ in enumerate(vals):
+                        if (name == 'argmin' and v_ < vals[best]) or (name == 'argmax' and v_ > vals[best]):
+                            best = i_
+                    return best
+                if rows_of(recv) is not None:
+                    import numpy as np
+                    if kwargs.get('axis', args[0] if args else None) in (-1, 1):
+                        return np.array([first_extreme(items_of(r)) for r in rows_of(recv)], dtype=np.int64)
+                    raise AnalysisError(f'{name} of a 2-d array along axis {kwargs.get("axis")} at {interp.where(node)}')
+                return first_extreme(items_of(recv))
             raise AnalysisError(f'method {name} on an array of symbolic scalars at {interp.where(node)}')
         if isinstance(recv, SVar) and name in ('min', 'max', 'any', 'all') and recv.members.get('dims') == []:
             return recv
@@ -836,6 +853,13 @@ class WitnessModel(Model):
         """python values of an array whose elements are all decided (flags, integers), else None"""
         if isinstance(x, SVar) and items_of(x) is not None and all('concrete' in i.members for i in items_of(x)):
             return [i.members['concrete'] for i in items_of(x)]
+        if isinstance(x, SVar) and items_of(x) is None and rows_of(x) is None:
+            if isinstance(x.members.get('concrete'), bool | int | float):
+                return x.members['concrete']  # a decided 0-d value
+            if x.dtype == 'bool' and isinstance(x.term, Rat):
+                v = self.value(x)
+                if v is not None:
+                    return bool(v)
         return None
 
     def ext_index(self, interp, path, key, node):
